@@ -109,6 +109,10 @@ def family_b(tier):
 def weights_for(ir, wspec):
     kind = wspec[0]
     w = IR.generic_weights(ir, rot=wspec[1])
+    if kind == 'dev2':
+        shape_of = lambda name: IR.weight_shape(ir, name)
+        w = IR.set_entry(w, wspec[2], tuple(0 for _ in shape_of(wspec[2])), IR.INF)
+        w = IR.set_entry(w, wspec[3], tuple(0 for _ in shape_of(wspec[3])), Fraction(0))
     if kind == 'dev':
         pos = IR.positions(ir)
         name, idx = pos[wspec[2]]
@@ -182,6 +186,17 @@ def family_a(sh, mode, r, tier='quick'):
             for pi in range(npos):
                 for val in ('0', 'inf', '1'):
                     wd = ('dev', rot, pi, val)
+                    w = weights_for(ir, wd)
+                    for sem in SEMS:
+                        judge(ir, w, sem, 'float64', 'fixed-point', r, ('A1', sh, names, dom, wd, sem, 'float64', 'fixed-point'))
+            # two deviations at once: an infinite weight in one factor meets a zero weight of another factor (0 x inf = 0);
+            # every ordered pair of distinct terminals, at their all-zero index
+            terms = sorted(set(n for n, _ in IR.positions(ir)))
+            for t_inf in terms:
+                for t_zero in terms:
+                    if t_inf == t_zero:
+                        continue
+                    wd = ('dev2', rot, t_inf, t_zero)
                     w = weights_for(ir, wd)
                     for sem in SEMS:
                         judge(ir, w, sem, 'float64', 'fixed-point', r, ('A1', sh, names, dom, wd, sem, 'float64', 'fixed-point'))
